@@ -36,9 +36,14 @@ type Step struct {
 	State []int64  `json:"state"` // positive, negative, failure, cut, proof sizes after the step
 	HitMs []int64  `json:"hm"`    // cache hits, misses deltas
 	Skip  string   `json:"skip,omitempty"`
+	// Kind labels a session step (same in every world; signature part)
+	Kind string `json:"kind,omitempty"`
 	// world-local facts (never compared)
 	Rung    string `json:"rung,omitempty"`
 	Decoded bool   `json:"-"`
+	Note    string `json:"note,omitempty"`   // evidence: what the harness knows about the state the step met
+	PktHex  string `json:"packet,omitempty"` // session steps: the packet this world built from its own replies
+	Echoed  bool   `json:"echoed,omitempty"` // session steps: the cookie carried a server half parsed from an earlier reply
 }
 
 // Transcript is everything one world did for a group.
@@ -46,7 +51,10 @@ type Transcript struct {
 	World   string
 	Steps   []Step
 	Elapsed time.Duration // wall time of the packet phase (limiter sanity only)
-	Err     string        // harness-level failure (inconclusive)
+	// SessElapsed is the longest wall time any single session took (each
+	// session has a limiter bucket of its own).
+	SessElapsed time.Duration
+	Err         string // harness-level failure (inconclusive)
 }
 
 func boolp(b bool) *bool { return &b }
@@ -196,7 +204,10 @@ func (rn *runner) finishStep(s *Step) bool {
 	sort.Strings(s.Stub)
 	if c := rn.st.Cache(); c != nil {
 		stats := c.Stats()
-		s.State = []int64{toI64(stats["positive_size"]), toI64(stats["negative_size"]), toI64(stats["failure_size"]),
+		// live entries only: an expired entry answers nothing, and whether it was
+		// already evicted depends on which lookups happened to touch it
+		lp, ln := c.VerifC05LiveSizes()
+		s.State = []int64{lp, ln, toI64(stats["failure_size"]),
 			toI64(stats["nxdomain_cut_size"]), toI64(stats["denial_proof_size"])}
 		h, m := toI64(stats["hits"]), toI64(stats["misses"])
 		s.HitMs = []int64{h - rn.hits, m - rn.misses}
@@ -440,6 +451,15 @@ func runWorld(g *Group, world string) *Transcript {
 				return tr
 			}
 			st.Cache().VerifStore().RecordZoneFailure(dns.Question{Name: op.Zone, Qtype: dns.TypeA, Qclass: dns.ClassINET}, op.Zone)
+		case "purge":
+			// the operator's purge (API endpoint → middleware.Purger): stands in
+			// for one entry running out while its neighbours stay
+			// (without prefetch every serve is synchronous: nothing can be in flight)
+			if g.Conf.Prefetch > 0 && !rn.settle() {
+				tr.Err = "quiesce timeout before purge"
+				return tr
+			}
+			st.Cache().Purge(dns.Question{Name: op.Name, Qtype: op.Qtype, Qclass: dns.ClassINET})
 		}
 		if d := time.Since(tOp); d > 20*time.Millisecond && os.Getenv("C05_TIMING") != "" {
 			fmt.Fprintf(os.Stderr, "slow history op %+v: %v\n", op, d)
@@ -470,7 +490,12 @@ func runWorld(g *Group, world string) *Transcript {
 				s, ok = rn.serveDecoded(label, p.Client, g.Proto, m)
 			}
 		default:
+			note := ""
+			if p.Target == "chain-mixed" {
+				note = rn.mixedNote(pkt)
+			}
 			s, ok = rn.serveStrict(label, p.Client, g.Proto, pkt, world)
+			s.Note = note
 		}
 		if !ok {
 			tr.Err = "quiesce timeout"
@@ -493,5 +518,181 @@ func runWorld(g *Group, world string) *Transcript {
 		}
 	}
 	tr.Elapsed = time.Since(start)
+
+	// ---- client sessions ----
+	for si := range g.Sessions {
+		t1 := time.Now()
+		if !rn.runSession(si, &g.Sessions[si]) {
+			return tr
+		}
+		if d := time.Since(t1); d > tr.SessElapsed {
+			tr.SessElapsed = d
+		}
+	}
 	return tr
+}
+
+// mixedNote describes, for a question aimed at a mixed chain, which admission
+// every hop currently stems from (upstream invocation ordinals) and the
+// attribute nibbles those admissions carried. Evidence only.
+func (rn *runner) mixedNote(pkt []byte) string {
+	m := new(dns.Msg)
+	if m.Unpack(pkt) != nil || len(m.Question) != 1 {
+		return ""
+	}
+	name := strings.ToLower(m.Question[0].Name)
+	if !strings.HasPrefix(name, "mc-") {
+		return ""
+	}
+	var ads, sigs, edes, ttls []string
+	for hop := 0; hop < 4; hop++ {
+		fam, first, zone := splitName(name)
+		if zone == "" || (fam != "mc" && fam != "mt") {
+			break
+		}
+		spec, rest := mixedSplit(strings.TrimPrefix(first, fam+"-"))
+		n := rn.st.Stub().Calls(name, m.Question[0].Qtype, dns.ClassINET)
+		at, ok := mixedAttrs(spec, n)
+		if !ok || n == 0 {
+			return ""
+		}
+		b := func(v bool) string {
+			if v {
+				return "1"
+			}
+			return "0"
+		}
+		ads, sigs, edes, ttls = append(ads, b(at.ad)), append(sigs, b(at.signed)), append(edes, b(at.ede)), append(ttls, b(at.short))
+		if fam == "mt" {
+			return "ad=" + strings.Join(ads, "") + " sig=" + strings.Join(sigs, "") + " ede=" + strings.Join(edes, "") + " short=" + strings.Join(ttls, "")
+		}
+		name = rest + "." + zone
+	}
+	return ""
+}
+
+// sessionCookie builds the COOKIE option payload of a step from this world's
+// own earlier replies. echoed reports whether a server half parsed from a reply
+// went into it.
+func sessionCookie(st *SessStep, issued []string) (cookie []byte, echoed bool) {
+	cc, _ := hex.DecodeString(st.CC)
+	lookup := func() []byte {
+		for j := st.Ref; j >= 0; j-- {
+			if j < len(issued) && issued[j] != "" {
+				b, _ := hex.DecodeString(issued[j])
+				return b
+			}
+		}
+		return nil
+	}
+	junk, _ := hex.DecodeString(st.Junk)
+	switch st.Cookie {
+	case "cc":
+		return cc, false
+	case "echo":
+		if full := lookup(); len(full) > 8 {
+			return full, true
+		}
+		return cc, false
+	case "graft":
+		if full := lookup(); len(full) > 8 {
+			return append(append([]byte(nil), cc...), full[8:]...), true
+		}
+		return cc, false
+	case "wrong", "badlen":
+		return append(append([]byte(nil), cc...), junk...), false
+	}
+	return nil, false
+}
+
+func sessionPacket(st *SessStep, cookie []byte) []byte {
+	flags := uint16(0x0100)
+	if st.CD {
+		flags |= 0x0010
+	}
+	if st.AD {
+		flags |= 0x0020
+	}
+	pkt := make([]byte, 12, 256)
+	pkt[0], pkt[1] = byte(st.ID>>8), byte(st.ID)
+	pkt[2], pkt[3] = byte(flags>>8), byte(flags)
+	pkt[5] = 1
+	name := wireName(st.Name)
+	if st.Case == 1 {
+		name = mutateCase(nil, name, 1)
+	}
+	pkt = append(pkt, name...)
+	pkt = append(pkt, byte(st.Qtype>>8), byte(st.Qtype), 0, 1)
+	if st.NoEDNS {
+		return pkt
+	}
+	o := &optSpec{owner: []byte{0}, size: 1232}
+	if st.DO {
+		o.z = 0x8000
+	}
+	if cookie != nil {
+		o.opts = append(o.opts, [2][]byte{code(dns.EDNS0COOKIE), cookie})
+	}
+	if st.NSID {
+		o.opts = append(o.opts, [2][]byte{code(dns.EDNS0NSID), nil})
+	}
+	pkt = append(pkt, o.bytes()...)
+	pkt[11] = 1
+	return pkt
+}
+
+// replyCookie is the complete COOKIE option payload (hex) of a reply, "" if
+// the reply carries none.
+func replyCookie(c Canon) string {
+	if c.EDNS == nil {
+		return ""
+	}
+	for _, o := range c.EDNS.OptOrder {
+		if strings.HasPrefix(o, "10:") {
+			return o[3:]
+		}
+	}
+	return ""
+}
+
+// runSession serves one session through this world's entry.
+func (rn *runner) runSession(si int, ss *Session) bool {
+	issued := make([]string, len(ss.Steps))
+	for k := range ss.Steps {
+		st := &ss.Steps[k]
+		cookie, echoed := sessionCookie(st, issued)
+		pkt := sessionPacket(st, cookie)
+		client := ss.Client
+		if strings.Contains(client, ":") {
+			client = "[" + client + "]"
+		}
+		client = fmt.Sprintf("%s:%d", client, st.Port)
+		label := fmt.Sprintf("S%d.%d", si, k)
+		var s Step
+		var ok bool
+		switch rn.world {
+		case worldMsg:
+			m := new(dns.Msg)
+			if uerr := m.Unpack(pkt); uerr != nil {
+				s = Step{Label: label, Skip: "library-unpack-failed", Decoded: true}
+				ok = rn.finishStep(&s)
+			} else {
+				s, ok = rn.serveDecoded(label, client, st.Proto, m)
+			}
+		default:
+			s, ok = rn.serveStrict(label, client, st.Proto, pkt, rn.world)
+		}
+		if !ok {
+			rn.tr.Err = "quiesce timeout in session"
+			return false
+		}
+		s.Kind, s.PktHex, s.Echoed = st.Kind, hex.EncodeToString(pkt), echoed
+		issued[k] = replyCookie(s.Reply)
+		if os.Getenv("C05_DUMP") != "" {
+			fmt.Fprintf(os.Stderr, "SESS %s %s %s %s q=%s/%d cookie=%x -> %s rung=%s issued=%.20s state=%v stub=%d\n", rn.world, label, st.Kind, client, st.Name, st.Qtype,
+				cookie, rcodeClass(s.Reply), s.Rung, issued[k], s.State, len(s.Stub))
+		}
+		rn.tr.Steps = append(rn.tr.Steps, s)
+	}
+	return true
 }
